@@ -51,6 +51,11 @@ package sync
 //@   ensures[logs-of-the-range] forall(k, 0, len(result), len(result[k].Topics) > 0 && fromBlock <= result[k].BlockNumber && result[k].BlockNumber <= toBlock)
 //@   ensures[in-block-order] forall(j, 0, len(result) - 1, result[j].BlockNumber <= result[j+1].BlockNumber)
 //@   ensures[one-hash-per-block-number] forall(j, 0, len(result), forall(i, 0, len(result), result[j].BlockNumber == result[i].BlockNumber ==> result[j].BlockHash == result[i].BlockHash))
+// "all of that block's events in log order": neighbours in the answer are taken from the node's answer in that order
+// (the node's answer to one query is in log order, A8)
+//@   ensures[in-the-nodes-order] forall(k, 0, len(result) - 1, exists(i, 0, logsCount(fromBlock, toBlock), exists(j, i + 1, logsCount(fromBlock, toBlock), result[k] == logsIn(fromBlock, toBlock)[i] && result[k+1] == logsIn(fromBlock, toBlock)[j])))
+//@   loop 1 invariant forall(k, 0, len(logs) - 1, exists(i, 0, rangeindex + 1, exists(j, i + 1, rangeindex + 1, logs[k] == unfilteredLogs[i] && logs[k+1] == unfilteredLogs[j])))
+//@   loop 1 invariant len(logs) > 0 ==> exists(i, 0, rangeindex + 1, logs[len(logs) - 1] == unfilteredLogs[i])
 //@   loop 0 invariant okQueries == old(okQueries)
 //@   loop 0 invariant d != nil && d.ethClient != nil && d.log != nil && d.rh != nil && query.FromBlock != nil && query.ToBlock != nil && bigval(query.FromBlock) == fromBlock && bigval(query.ToBlock) == toBlock
 //@   loop 1 invariant qFrom == fromBlock && qTo == toBlock && len(unfilteredLogs) == logsCount(fromBlock, toBlock) && off(unfilteredLogs) == 0 && seq(unfilteredLogs) == logsIn(fromBlock, toBlock) && off(logs) == 0
